@@ -50,7 +50,7 @@ class C19(vlib.Spec):
     search_budget_s = 60
 
     def gen(self, rng, tier, n):
-        return [dict(c, k="compile") for c in P.gen_programs(rng, tier, n)]
+        return [dict(c, k="compile") for c in P.gen_programs(rng, tier, n, corpus="C19")]
 
     def n_cases(self, tier):
         return 500 if tier == "quick" else 4000
